@@ -128,7 +128,7 @@ PROPS = {
                 "unrouted paths (404/405) and methods without any route; shutdown() after the load or at a drawn instant in the middle of it, then "
                 "destruction; thread stalls injected; plain and ThreadSanitizer builds; e2e_client_server: the endpoint (1..3 workers, replies also from an application thread, streams, files) "
                 "under the real HTTP client instead of scripted peers, shut down in mid-load in a fifth of the runs; " + NONTRIVIAL,
-        "probes_expected": ["kind-echo", "kind-async", "kind-stream", "shutdown-idle", "shutdown-with-load", "shutdown-with-connections-open", "shutdown-with-requests-in-flight",
+        "probes_expected": ["blocking-serve", "kind-echo", "kind-async", "kind-stream", "shutdown-idle", "shutdown-with-load", "shutdown-with-connections-open", "shutdown-with-requests-in-flight",
                             "method-not-allowed", "not-found", "method-without-route-table", "late-client"],
         "assumptions": [],
         "quick": {"batches": [("c09_serving", "plain", 15000), ("c09_serving", "tsan", 2500), ("c09_serving", "tsanat", 6000),
